@@ -283,6 +283,30 @@ def rule_rates(ctx):
            'tuple defaults become arrays of slots', g.node, mod)
 
 
+def rule_defaults(ctx):
+    ctx.rule('C04.defaults', 'a declared default is replaced (by the spec default or 0.0) only when it is None: the functions that '
+                             'produce control defaults test `is None`, never truthiness (0, 0.0 and False are legitimate defaults)')
+    sd = ctx.repo.cls('sc3.synth.synthdef:SynthDef')
+    mod = sd.module
+    for fn in ('_apply_metadata_specs', '_get_valid_arg_values'):
+        f = sd.methods[fn]
+        ors = [n for n in ast.walk(f.node) if isinstance(n, ast.BoolOp) and isinstance(n.op, ast.Or)]
+        truthy = [n for n in ast.walk(f.node) if isinstance(n, (ast.If, ast.IfExp)) and isinstance(n.test, ast.Name)]
+        ctx.ob('C04.defaults', f'{f.fq}:no-truthiness', not ors and not truthy,
+               f'{fn} chooses defaults by truthiness ({[norm(x) for x in (ors + truthy)][:2]}): an explicit 0/0.0/False default is replaced by the '
+               f'spec default, so the control slot does not hold the declared default', f.node, mod)
+    f = sd.methods['_apply_metadata_specs']
+    src = full(f.node)
+    nones = [n for n in ast.walk(f.node) if isinstance(n, ast.Compare) and isinstance(n.ops[0], (ast.Is, ast.IsNot)) and
+             isinstance(n.comparators[0], ast.Constant) and n.comparators[0].value is None]
+    ctx.ob('C04.defaults', f'{f.fq}:none-tests', len(nones) >= 2, 'missing defaults are detected with `is None` on both branches (with and without specs)', f.node, mod)
+    ctx.ob('C04.defaults', f'{f.fq}:spec-default', '.default' in src and '0.0' in src, 'a missing default becomes the spec default or 0.0', f.node, mod)
+    a = sd.methods['_args_to_controls']
+    src = full(a.node)
+    ctx.ob('C04.defaults', f'{a.fq}:pipeline', U.before(src, 'values = self._get_valid_arg_values(params)', 'values = values[', 'values = self._apply_metadata_specs(names, values)'),
+           'defaults come from the signature, are sliced by skip_args, then completed from the specs', a.node, mod)
+
+
 def rule_call(ctx):
     ctx.rule('C04.call', 'the names __call__ zips positional arguments with are the definition\'s own controls: the '
                          'field is not written on the re-entrant wrap path (or is saved/restored there) and excludes '
@@ -349,6 +373,7 @@ def run(ctx):
     rule_names(ctx)
     rule_rates(ctx)
     rule_call(ctx)
+    rule_defaults(ctx)
 
 
 MUTANTS = [
@@ -386,6 +411,8 @@ MUTANTS = [
          new="        sig = inspect.signature(func)\n        self._callable_args = list(sig.parameters.keys())\n        params = list(sig.parameters.values())\n"),
     dict(rule='C04.call', name='(fix reverted) prepended parameters included', file='sc3/synth/synthdef.py',
          old="func).parameters)[len(utl.as_list(prepend)):]", new="func).parameters)"),
+    dict(rule='C04.defaults', name='defaults chosen by truthiness', file='sc3/synth/synthdef.py',
+         old="                if value is not None:\n                    new_values.append(value)\n                else:", new="                if value:\n                    new_values.append(value)\n                else:"),
 ]
 
 REPAIRS = []
